@@ -123,7 +123,8 @@ StepWriteThrough(m, e) ==
            !.touched = TRUE, !.wrote = m.wrote + e.n, !.plain = FALSE, !.copyonly = FALSE]
 
 StepReadFrom(m, e) ==
-    IF m.failed THEN AfterFailure(m, e, FALSE)
+    \* (a copy into the writer is a write: "reports the error on every later write and flush")
+    IF m.failed THEN AfterFailure(m, e, TRUE)
     ELSE
       LET acc2 == m.acc + e.n
           fr == Fragments(m, e, acc2)
